@@ -10,6 +10,7 @@ struct Harness {
   const char* name;
   const Cfg* cfgs;
   int ncfg;
+  int version = 1; // bump when the program generator changes shape: older replay files are then reported as stale
 };
 } // namespace vrt
 extern "C" const vrt::Harness* vrt_harness();
